@@ -261,6 +261,13 @@ func runC06(c *core.Ctx, o Options) {
 				bad = append(bad, refusal+": "+strings.Join(pr, "; ")+" on path: "+traceStr(t))
 				continue
 			}
+			if refusal == "already-logged-on" {
+				// not permitted in this state: rejected from the raw bytes like in the other handlers (C16.J2/J3)
+				if countCalls(t, "ValueByTag") == 0 {
+					bad = append(bad, "already-logged-on: the Reject is not built from the raw bytes of the offending Logon")
+				}
+				continue
+			}
 			// operands of the reject
 			mk := eventsOf(t, "mkreject")
 			if len(mk) != 1 || len(mk[0].Args) != 4 {
